@@ -1,6 +1,8 @@
 /- `drv` — the model side of every correspondence check: `drv <mode>` reads the same line protocol
-   as the Rust harness `vh <mode>` on stdin and prints the model's observation lines. -/
+   as the Rust harness `vh <mode>` on stdin and prints the model's observation lines; the `*mon`
+   modes evaluate a property monitor (`Verif.Spec.*`) on an observation stream. -/
 import Verif.Drv.Tok
+import Verif.Drv.Transient
 
 partial def lineLoop (h : IO.FS.Stream) (out : IO.FS.Stream) (f : String → Option String) : IO Unit := do
   let line ← h.getLine
@@ -10,9 +12,19 @@ partial def lineLoop (h : IO.FS.Stream) (out : IO.FS.Stream) (f : String → Opt
   | none => pure ()
   lineLoop h out f
 
+partial def stateLoop {σ : Type} (h : IO.FS.Stream) (out : IO.FS.Stream)
+    (f : σ → String → σ × List String) (s : σ) : IO Unit := do
+  let line ← h.getLine
+  if line.isEmpty then return ()
+  let (s', os) := f s (line.trimAscii.toString)
+  for o in os do out.putStrLn o
+  stateLoop h out f s'
+
 def main (args : List String) : IO UInt32 := do
   let stdin ← IO.getStdin
   let stdout ← IO.getStdout
   match args with
   | ["tok"] => lineLoop stdin stdout Verif.Drv.Tok.step; return 0
-  | _ => IO.eprintln "usage: drv tok|…"; return 2
+  | ["transient"] => stateLoop stdin stdout Verif.Drv.Transient.stepModel none; return 0
+  | ["c18mon"] => stateLoop stdin stdout Verif.Drv.Transient.stepMon {}; return 0
+  | _ => IO.eprintln "usage: drv tok|transient|c18mon"; return 2
